@@ -284,16 +284,21 @@ class Specialiser:
             if is_dyn(stop):
                 rest = dict(env)
                 self.block(stmts[i + 1:], rest)
-                self.merge(env, stop, env, rest)
+                # a name first bound AFTER the point where the function has (conditionally) returned is dead on the returned arm
+                only_return = env["$brk"] is False and env["$cnt"] is False
+                self.merge(env, stop, env, rest, dead_true=only_return)
                 return
 
-    def merge(self, target, cond, env_true, env_false):
+    def merge(self, target, cond, env_true, env_false, dead_true=False):
         """target[var] := env_true[var] if cond else env_false[var]"""
         keys = set(env_true) | set(env_false)
         out = {}
         for k in keys:
             a = env_true.get(k, UNBOUND)
             b = env_false.get(k, UNBOUND)
+            if dead_true and isinstance(a, Unbound) and not k.startswith("$"):
+                out[k] = b
+                continue
             out[k] = a if vkey(a) == vkey(b) else ite(cond, a, b)
         target.clear()
         target.update(out)
